@@ -13,7 +13,6 @@ open Gen.Rest
 
 theorem skel_mod : skel_mod_keys = Rest.Skel.mod_keys := rfl
 theorem skel_VerifyingKey_init_ : skel_keys_VerifyingKey_init_ = Rest.Skel.keys_VerifyingKey_init_ := rfl
-theorem skel_VerifyingKey_repr_ : skel_keys_VerifyingKey_repr_ = Rest.Skel.keys_VerifyingKey_repr_ := rfl
 theorem skel_VerifyingKey_eq_ : skel_keys_VerifyingKey_eq_ = Rest.Skel.keys_VerifyingKey_eq_ := rfl
 theorem skel_VerifyingKey_ne_ : skel_keys_VerifyingKey_ne_ = Rest.Skel.keys_VerifyingKey_ne_ := rfl
 theorem skel_SigningKey_init_ : skel_keys_SigningKey_init_ = Rest.Skel.keys_SigningKey_init_ := rfl
